@@ -37,6 +37,8 @@ const (
 	closedPort = 8001 // nothing listens
 	udpPort    = 7000 // bound UDP socket
 	udpClosed  = 7001
+	udpUnread  = 7002  // bound UDP socket that the application reads only when told to (queue pressure)
+	sinkPort   = 8002  // listener whose connections are accepted but read only when told to
 	tagLo      = 10000 // per-case source ports: tagLo .. tagLo+tagN-1
 	tagN       = 34000
 	noiseLo    = 44000 // noise templates: 44000..49999
@@ -270,7 +272,11 @@ func matchTCP(c *conn, f func(d *dec) bool) func(*emit) bool {
 
 // handshake opens a connection to the stack's listener as a raw peer.
 func handshake(io netio, v, nic, sport int, iss uint32, d time.Duration) (*conn, error) {
-	c := &conn{v: v, nic: nic, sport: sport, dport: lstPort, iss: iss}
+	return handshakeTo(io, v, nic, sport, lstPort, iss, d)
+}
+
+func handshakeTo(io netio, v, nic, sport, dport int, iss uint32, d time.Duration) (*conn, error) {
+	c := &conn{v: v, nic: nic, sport: sport, dport: dport, iss: iss}
 	io.Inject(nic, netProto(v), [][]byte{c.seg(wire.SYN, iss, 0, wire.OptMSS(1400), nil)})
 	e, ok := io.Wait(matchTCP(c, func(d *dec) bool {
 		return d.flags&(wire.SYN|wire.ACK|wire.RST) == wire.SYN|wire.ACK && d.ack == iss+1
@@ -286,13 +292,25 @@ func handshake(io netio, v, nic, sport int, iss uint32, d time.Duration) (*conn,
 
 // echoData sends data on c and waits until the stack's echo server returned it.
 func echoData(io netio, c *conn, data []byte, d time.Duration) error {
-	io.Inject(c.nic, netProto(c.v), [][]byte{c.seg(wire.PSH|wire.ACK, c.snd, c.rcv, nil, data)})
+	seg := c.seg(wire.PSH|wire.ACK, c.snd, c.rcv, nil, data)
+	io.Inject(c.nic, netProto(c.v), [][]byte{seg})
 	c.snd += uint32(len(data))
 	var got []byte
 	deadline := time.Now().Add(d)
+	rto := 300 * time.Millisecond
 	for len(got) < len(data) {
-		e, ok := io.Wait(matchTCP(c, func(x *dec) bool { return len(x.payload) > 0 && x.seq == c.rcv && x.flags&wire.RST == 0 }), time.Until(deadline))
+		w := time.Until(deadline)
+		if len(got) == 0 && w > rto {
+			w = rto
+		}
+		e, ok := io.Wait(matchTCP(c, func(x *dec) bool { return len(x.payload) > 0 && x.seq == c.rcv && x.flags&wire.RST == 0 }), w)
 		if !ok {
+			if len(got) == 0 && time.Now().Before(deadline) {
+				// like any TCP peer: retransmit (the segment may have raced with the creation of the connection)
+				io.Inject(c.nic, netProto(c.v), [][]byte{seg})
+				rto *= 2
+				continue
+			}
 			return fmt.Errorf("echo of %d bytes not seen on port %d (got %d)", len(data), c.sport, len(got))
 		}
 		got = append(got, e.d.payload...)
